@@ -236,6 +236,58 @@ def _srcmap_rule(chk, prog):
         raise AnalysisBroken("janetc_emit's buffer appends not found")
 
 
+def _closureflag_rule(chk, prog):
+    """The loop-to-function rewrite in janetc_while is triggered by JANET_SCOPE_CLOSURE on the loop's
+    scope; janetc_popscope propagates the flag outwards through non-function scopes only.  So whoever
+    emits a JOP_CLOSURE into the current function has to flag the scope it emits into - otherwise an
+    enclosing loop keeps one shared frame for all iterations and closures capture the wrong variable."""
+    rule = "C02-CLOSUREFLAG"
+    chk.rule(rule, "every path that emits JOP_CLOSURE also sets JANET_SCOPE_CLOSURE on the enclosing scope before returning")
+    n = 0
+
+    def emits(x):
+        return (x.k == "call" and x.callee and x.callee.startswith("janetc_emit")
+                and any(r.k == "ref" and r.name == "JOP_CLOSURE" for a in x.args for r in a.walk()))
+
+    def flags(x):
+        return (x.k == "asg" and x.op == "|=" and x.kids[0].k == "mem" and x.kids[0].field == "flags"
+                and x.kids[0].rec == "JanetScope" and "JANET_SCOPE_CLOSURE" in x.kids[1].macro_names())
+
+    for fn in prog.all_funcs():
+        if fn.tu.name not in ("specials.c", "compile.c", "cfuns.c"):
+            continue
+        sites = [x for x in fn.nodes if emits(x)]
+        if not sites:
+            continue
+        n += 1
+        chk.instance(rule)
+        chk.analysed(fn)
+
+        def transfer(st, x):
+            if emits(x):
+                return st | {"emit"}
+            if flags(x):
+                return st | {"flag"}
+            return st
+        IN, OUT, T = flow.forward_paths(fn, frozenset(), transfer)
+        bad = None
+        for b, kind in flow.exits(fn):
+            if kind != "return" or b.id not in OUT:
+                continue
+            for ps in OUT[b.id]:
+                if "emit" in ps and "flag" not in ps:
+                    bad = b
+        if bad is not None:
+            last = bad.elems[-1] if bad.elems else sites[0]
+            chk.violation(rule, fn.tu.name, fn.name, "JOP_CLOSURE", sites[0].loc,
+                          "%s emits JOP_CLOSURE but can return (near %s) without setting JANET_SCOPE_CLOSURE on the scope it "
+                          "emitted into: an enclosing while loop will not be rewritten into a function per iteration and "
+                          "closures created here share one frame across iterations" % (fn.name, last.loc))
+        else:
+            chk.ok(rule, "%s: closure emission at %s always flags the scope" % (fn.name, sites[0].loc))
+    chk.floor(rule, 2)
+
+
 _run_commit_only = run
 
 
@@ -246,3 +298,4 @@ def run(chk):   # noqa
     types = _optables_rule(chk, prog)
     _emitform_rule(chk, prog, types)
     _srcmap_rule(chk, prog)
+    _closureflag_rule(chk, prog)
